@@ -140,7 +140,7 @@ def families(facts):
     fams += [f"visitor[{k}]" for k in facts.kinds]
     fams += [f"dispatch[{k}]" for k in facts.kinds]
     fams += [f"transformer[{k}]" for k in facts.kinds] + [f"transformer.override[{k}]" for k in facts.kinds]
-    fams += ["lemma.noop.seq"] + [f"lemma.noop[{k}]" for k in facts.kinds] + ["canary"]
+    fams += ["lemma.noop.seq"] + [f"lemma.noop[{k}]" for k in facts.kinds] + ["bounded.traversal", "canary"]
     return fams
 
 
@@ -151,6 +151,8 @@ def run_family(facts, fam, tier):
         return [{"name": "C16:odata_query.ast:cfg.shape", "clause": "cfg.shape",
                  "status": "discharged" if not probs else "undecided", "seconds": 0.0,
                  "reason": "; ".join(probs) or "ast classes match the shape table", "backend": "finite-check"}]
+    if fam == "bounded.traversal":
+        return bounded_traversal(facts, tier)
     if fam == "cfg.dataclass":
         out = []
         for k in facts.kinds + [n for n in facts.ast_classes if n.startswith("_")]:
@@ -178,6 +180,14 @@ def run_family(facts, fam, tier):
                  "backend": "finite-check", "reason": "; ".join(bad) or "frozen, structural eq, all fields compared",
                  "status": "discharged" if not bad else "refuted", "kind": k, "problems": bad}
             out.append(r)
+            # the contracts take `Kind(f1, ..., fn)` to be the record of its arguments (DESIGN 4): a user-written constructor hook
+            # may store something else.  Not a violation by itself (a validating hook is fine): undecided, the bounded family decides.
+            hooks = [m for m in ("__post_init__", "__init__", "__new__", "__getattribute__", "__getattr__", "__delattr__") if m in cf["members"]]
+            hooks += [f"field {f['name']} has init=False" for f in (dc["fields"] if dc else []) if not f.get("init", True)]
+            out.append({"name": f"C16:odata_query.ast.{k}:cfg.record", "clause": "cfg.record", "seconds": 0.0, "backend": "finite-check",
+                        "status": "discharged" if not hooks else "undecided", "kind": k,
+                        "reason": "generated constructor: a node is the record of its arguments" if not hooks else
+                        "user-written construction hooks " + ", ".join(hooks) + ": the node may not be the record of its arguments (bounded.traversal runs the real classes)"})
         return out
 
     c = build(facts)
@@ -310,7 +320,124 @@ def run_family(facts, fam, tier):
 
 
 # ------------------------------------------------------------------------------------------
+TRAVERSAL = r'''
+import json, copy, dataclasses
+from odata_query import ast
+from odata_query.visitor import NodeVisitor, NodeTransformer
+from odata_query.grammar import ODataLexer, ODataParser
+
+BATTERY = ["a eq 1", "status in (draft, fallback_status, 'open') and id in ((1, 2), (a, 4))", "not (a add b mul -c lt 2.5)",
+           "contains(concat(a, b/c), 'x') or startswith(n.s.f(p=a, q=(a, b)), 'y')", "items/any(x: x/price gt a and x/q in (a, b))",
+           "items/all(i: i/tags/any(t: t eq a/b or i/a eq null))", "posts/any()", "(a,) eq b", "d gt 2020-01-02T10:20:30Z and t lt 10:20:30",
+           "g eq 12345678-1234-1234-1234-123456789abc and dur eq duration'P1DT2H' and geo.distance(p, geography'SRID=0;Point(1 2)') lt 5",
+           "now() eq null or n.g() eq true", "b in ((1,), (2, 3))"]
+
+
+def children(n):
+    # independent of iter_dataclass_fields / generic_visit: declared field order, nodes inside any sequence
+    for f in dataclasses.fields(n):
+        v = getattr(n, f.name)
+        if isinstance(v, ast._Node):
+            yield v
+        elif isinstance(v, (list, tuple)):
+            for x in v:
+                if isinstance(x, ast._Node):
+                    yield x
+
+
+def preorder(n):
+    out = [n]
+    for c in children(n):
+        out.extend(preorder(c))
+    return out
+
+
+def mapped(n, fn):
+    # rebuild bottom-up, applying fn to every node after its children were mapped
+    if isinstance(n, (list, tuple)):
+        return type(n)(mapped(x, fn) for x in n)
+    if not isinstance(n, ast._Node):
+        return n
+    return fn(type(n)(**{f.name: mapped(getattr(n, f.name), fn) for f in dataclasses.fields(n)}))
+
+
+class Rec(NodeVisitor):
+    def __init__(self):
+        self.trace = []
+
+    def visit(self, node):
+        self.trace.append(node)
+        return super().visit(node)
+
+
+problems = []
+ran = 0
+for text in BATTERY:
+    try:
+        tree = ODataParser().parse(ODataLexer().tokenize(text))
+    except Exception as ex:
+        problems.append([text, "battery filter does not parse: " + type(ex).__name__])
+        continue
+    ran += 1
+    before = copy.deepcopy(tree)
+    want = preorder(tree)
+    r = Rec()
+    r.visit(tree)
+    if len(r.trace) != len(want) or any(a is not b for a, b in zip(r.trace, want)):
+        problems.append([text, "default visitor trace %s != depth-first field order %s" % ([type(x).__name__ for x in r.trace][:30], [type(x).__name__ for x in want][:30])])
+    kinds = sorted({type(x).__name__ for x in want})
+    for k in kinds:
+        seen = []
+
+        def handler(self, node, seen=seen):
+            seen.append(node)
+            self.generic_visit(node)
+        V = type("V_" + k, (NodeVisitor,), {"visit_" + k: handler})
+        V().visit(tree)
+        exp = [x for x in want if type(x).__name__ == k]
+        if len(seen) != len(exp) or any(a is not b for a, b in zip(seen, exp)):
+            problems.append([text, "visit_%s called %d times, %d nodes of that kind" % (k, len(seen), len(exp))])
+    got = NodeTransformer().visit(tree)
+    if got != tree:
+        problems.append([text, "transformer without overrides returned a different tree"])
+
+    def up(node):
+        return ast.Identifier(node.name.upper(), node.namespace) if isinstance(node, ast.Identifier) else node
+    T = type("Upper", (NodeTransformer,), {"visit_Identifier": lambda self, node: up(node)})
+    got = T().visit(tree)
+    if got != mapped(tree, up):
+        problems.append([text, "transformer overriding visit_Identifier did not change exactly the identifiers"])
+    if tree != before:
+        problems.append([text, "input tree modified by a traversal"])
+    if tree != copy.deepcopy(tree) or (len(want) > 1 and tree == mapped(tree, up) and any(isinstance(x, ast.Identifier) and x.name != x.name.upper() for x in want)):
+        problems.append([text, "equality is not structural"])
+print(json.dumps({"violates": bool(problems), "problems": problems[:5], "count": len(problems), "ran": ran}))
+'''
+
+
+def bounded_traversal(facts, tier):
+    """Bounded stand-in (labelled, never counted): the real base classes on parser-built trees against an independent
+    depth-first walk over the declared dataclass fields (covers what the handler contracts assume of node construction)."""
+    import time
+    from vc.runner import native_run
+    t0 = time.time()
+    nat = native_run(TRAVERSAL, timeout=600)
+    name = "C16:traversal:bounded"
+    if "problems" not in nat:
+        return [{"name": name, "clause": "bounded", "bounded": True, "status": "undecided", "seconds": time.time() - t0,
+                 "reason": str(nat)[:300], "bound": "native run failed"}]
+    ok = not nat["violates"]
+    return [{"name": name, "clause": "bounded", "bounded": True, "status": "discharged" if ok else "refuted", "seconds": time.time() - t0,
+             "backend": "real NodeVisitor / NodeTransformer on parser-built trees vs an independent walk (bounded, not a proof)",
+             "bound": f"{nat['ran']} filters covering every node kind, lists in lists, empty lists, optional lambda bodies, named parameters; "
+                      "default trace, one single-kind handler per kind present, identity transformer, identifier-mapping transformer, no mutation, equality",
+             "reason": "every run agrees with the independent walk" if ok else str(nat["problems"][:2])[:400],
+             "solver_output": str(nat["problems"][:3])[:800], "native_script": TRAVERSAL}]
+
+
 def replay_spec(facts, r):
+    if r.get("bounded") and r.get("native_script"):
+        return {"native_script": r["native_script"], "input_text": r.get("bound"), "required": "traversal = depth-first field order; identity / exact rewrite; no mutation"}
     if r.get("clause") == "cfg.dataclass":
         k = r.get("kind")
         script = f"""
